@@ -225,6 +225,36 @@ def zip_tasks(tier, role):
 
 # ------------------------------------------------------------------------------------ cached side input (C11)
 
+def native_binstart(ex, net, nl, nr, lc, rc):
+    """the real Start<BinaryStartReceiver> fed with the batches of the model run, in the same order"""
+    import os
+    from mirsym.executor import RustPanic
+    bl = [ev for ev in net.log if ev[0] == 'batch']
+    args = [nl, nr, int(lc), int(rc), len(bl)]
+    for _, bid, s, batch in bl:
+        args += [bid, s, len(batch)] + hlib.encode_script(ex, batch, False)
+    os.environ['VERIF_REPLAY_ZIP_GAP_MS'] = '40'
+    runner, prof = ex.env['native']
+    ex.env['native_used'] = True
+    txt = runner('binstart', args, timeout=120)[prof]
+    ex.env['native_out'] = txt
+    if txt == 'PANIC':
+        raise RustPanic('the real binary Start panicked on this input')
+    out = []
+    for tok in txt.split():
+        if tok in ('TIMEOUT', 'OVERRUN'):
+            raise Violation('the real binary Start does not terminate on this input (%s)' % tok, hlib._wit(ex))
+        if tok in ('LE', 'RE'):
+            out.append(hlib.se('Item', Enum('BinaryElement', 'LeftEnd' if tok == 'LE' else 'RightEnd', BE['LeftEnd' if tok == 'LE' else 'RightEnd'], [])))
+        elif tok[0] in 'LR' and tok[1] == '(':
+            side = 'Left' if tok[0] == 'L' else 'Right'
+            out.append(hlib.se('Item', Enum('BinaryElement', side, BE[side], [Int('u64', int(tok[2:-1]))])))
+        else:
+            out.append(hlib.parse_token(tok))
+    ex.env['last_output'] = out
+    return out
+
+
 def cache_harness(w, nl, nr, rounds, max_len, cached='right', cut='each'):
     """binary Start inside a loop body: the `cached` side comes from outside the loop (delivered once), the other
     side is the loop's stream (`rounds` iterations)"""
@@ -244,6 +274,8 @@ def cache_harness(w, nl, nr, rounds, max_len, cached='right', cut='each'):
         net = binary_setup(ex, w, holder, setup, nl, nr, sl, sr, cut)
         total = sum(len(s) for s in sl + sr)
         out = hlib.drive(ex, nxt, holder, (rounds + 1) * total + 8)
+        if ex.env.get('native'):
+            out = native_binstart(ex, net, nl, nr, cached == 'left', cached == 'right')
         sx = lambda: {'cached': cached, 'left': [[repr(e) for e in s] for s in sl],
                       'right': [[repr(e) for e in s] for s in sr],
                       'arrival': [(ev[1], ev[2], len(ev[3])) for ev in net.log if ev[0] == 'batch'],
@@ -282,9 +314,11 @@ def cache_harness(w, nl, nr, rounds, max_len, cached='right', cut='each'):
 def cache_tasks(tier, role):
     cfgs = [dict(nl=1, nr=1, rounds=3, max_len=[1, 1, 1], cached='right'),
             dict(nl=1, nr=2, rounds=2, max_len=[1, 1], cached='right'),
+            dict(nl=2, nr=1, rounds=2, max_len=[1, 0], cached='right'),
             dict(nl=1, nr=1, rounds=2, max_len=[2, 1], cached='left')]
     if tier != 'quick':
         cfgs += [dict(nl=2, nr=1, rounds=2, max_len=[1, 1], cached='right'),
+                 dict(nl=1, nr=2, rounds=2, max_len=[1, 1], cached='left'),
                  dict(nl=1, nr=1, rounds=3, max_len=[2, 2, 1], cached='left')]
     ts = []
     for c in cfgs:
